@@ -69,6 +69,13 @@ func c04Forms() []c04Form {
 		{"with-vif-filter-last", func(v string) string {
 			return `<li v-for="(i, ` + v + `) in xs" v-if="i < 1">[[I:{{ i }}|{{ ` + v + ` }}|{{ outer }}]]</li>`
 		}, true, func(i int) bool { return i >= 1 }},
+		// ... every item rejected: the loop produces nothing at all (and a following v-else is due)
+		{"with-vif-none", func(v string) string {
+			return `<li v-for="(i, ` + v + `) in xs" v-if="i < 0">[[I:{{ i }}|{{ ` + v + ` }}|{{ outer }}]]</li>`
+		}, true, func(i int) bool { return true }},
+		{"with-vif-none-template", func(v string) string {
+			return `<template v-for="(i, ` + v + `) in xs" v-if="outer == 'never'"><b>[[I:{{ i }}|{{ ` + v + ` }}|{{ outer }}]]</b></template>`
+		}, true, func(i int) bool { return true }},
 		{"with-binding", func(v string) string {
 			return `<li v-for="(i, ` + v + `) in xs" :data-x="` + v + `" :class="{c: i}">[[I:{{ i }}|{{ ` + v + ` }}|{{ outer }}]]</li>`
 		}, true, nil},
